@@ -145,8 +145,39 @@ def examine(traces, labels, rep):
     return hist, completed
 
 
+def multi_start_reuse(ctx, rep):
+    """A multi-start loop: several problems built one after the other from the SAME bound vectors (float arrays, a log-scaled variable among
+    them) with different start points - every one of them is a valid problem and runs to completion."""
+    import numpy as np
+    from pybads import BADS
+    rng = ctx.sub_rng("c09multi")
+    n = 0
+    for D in (1, 2, 3):
+        lb, ub = np.full(D, 1e-3), np.full(D, 1e3)
+        plb, pub = np.full(D, 1e-1), np.full(D, 1e2)
+        if D > 1:
+            lb[-1], ub[-1], plb[-1], pub[-1] = -5.0, 5.0, -1.0, 1.0          # a linear variable next to the log-scaled ones
+        for k in range(3):
+            x0 = np.array([10.0 ** rng.uniform(-0.5, 1.5) for _ in range(D)])
+            if D > 1:
+                x0[-1] = rng.uniform(-0.9, 0.9)
+            case = {"kind": "multi_start", "D": D, "start": k}
+            try:
+                r = BADS(lambda x: float(np.sum(np.log10(np.abs(np.asarray(x)) + 1e-9) ** 2)), x0, lb, ub, plb, pub,
+                         options={"display": "off", "max_fun_evals": 25 + D, "n_search": 32, "random_seed": 3 + k}).optimize()
+                n += 1
+            except Exception as ex:
+                import traceback
+                fr = traceback.extract_tb(ex.__traceback__)[-1]
+                rep.violation(f"{type(ex).__name__}@multi_start", f"{fr.filename.split('/')[-1]}:{fr.name}",
+                              f"start #{k + 1} of a multi-start loop over the same bound vectors (D={D}, lb={lb.tolist()}, ub={ub.tolist()}) failed with {type(ex).__name__}: {str(ex)[:100]}", case)
+                break
+    return n
+
+
 def run(ctx):
     rep = Report()
+    n_multi = multi_start_reuse(ctx, rep)
     pool = runlevel.get_pool(ctx)
     forced = tracer.cached("c09forced", ctx.seed, ctx.tier,
                            lambda: [(sp, dict(kw, want=("ctl",))) for _, sp, kw in forced_specs(ctx.seed, ctx.tier)])
